@@ -33,6 +33,15 @@ POS = {
     # tells the straight line from the great circle); 18.1 deg: outside both
     "w0": (28.0, 0.0),
     "w1": (28.1, 0.0),
+    # whole degrees (part "repr": the same numbers as float32 and integer
+    # arrays): 1.94 / 3.88 / 5.82 km apart near the pole, the date line
+    # twice, a point whose float32 cartesian coordinates are 1.16 m off
+    "p0": (89.0, 0.0),
+    "p1": (89.0, 1.0),
+    "p2": (89.0, 3.0),
+    "e0": (0.0, 180.0),
+    "e1": (0.0, -180.0),
+    "s0": (-10.0, -141.0),
 }
 # point alphabet: name -> (position, second); max_interval is 10 s, so the
 # lattice has |dt| = 0, 2, 4, 6 (inside), 10 (= max_interval: excluded), 12
@@ -49,6 +58,9 @@ POINTS = {
     "P": ("w0", 6), "Q": ("w1", 6),
     # for max_interval 36 h / 48 h (part "long"): 12 h, 36 h and 48 h after A
     "R": ("c1", 43200), "S": ("c1", 129600), "T": ("c0", 172800),
+    # on whole degrees (part "repr")
+    "U": ("p0", 0), "V": ("p1", 6), "W": ("p2", 12), "X": ("e0", 6),
+    "Y": ("e1", 0), "Z": ("s0", 6),
 }
 # scan lines for the gridded variants: (second, positions); kinds G and GT
 # take the first two positions of a line, kind H all three
@@ -56,6 +68,7 @@ LINES = {
     "a": (0, "c0", "c1", "c2"), "b": (6, "c1", "c2", "c0"),
     "c": (12, "c2", "xlat", "c1"), "d": (10, "c0", "far", "xlon"),
     "e": (6, "d0", "d1", "far"), "f": (0, "n0", "n1", "c0"),
+    "g": (0, "p0", "p1", "p2"), "h": (6, "p1", "e0", "s0"),     # whole degrees
 }
 GRID_KINDS = {"G": 2, "GT": 2, "H": 3}      # kind -> scan positions
 # unique, non-trivial, unsorted labels of the point dimension / of the two
@@ -73,6 +86,7 @@ THRESHOLDS = {
     "m+timedelta": ("5000 m", dt.timedelta(seconds=10), 5000, 10),
     "half-second": (5.0, 10.5, 5000, 10.5),
     "half-second-str": ("5 kilometers", "10500 ms", 5000, 10.5),
+    "1m": (0.001, 10, 1, 10),
     "wide-num": (2000, 10, 2e6, 10),
     "wide-str": ("2000 km", "10 s", 2e6, 10),
     "wide-m": ("2e6 m", dt.timedelta(seconds=10), 2e6, 10),
@@ -107,9 +121,12 @@ WINDOWS = {
     "timestamp": (3, 11, "timestamp"),
 }
 # unit1 / unit2: resolution of the time variable of the primary / secondary;
+# pos1 / pos2: (dtype of lat, dtype of lon) of the primary / secondary;
 # named: the datasets are passed as (name, dataset) tuples
+F64 = ("float64", "float64")
 DEFAULT = dict(thr="num", window="none", swap=False, leaf=40, mf=10, bin=1,
-               shuffle="rev", unit1="ns", unit2="ns", named=False)
+               shuffle="rev", unit1="ns", unit2="ns", named=False,
+               pos1=F64, pos2=F64)
 ALTERNATIVES = dict(
     thr=["str", "m+timedelta", "half-second", "half-second-str"],
     window=["between", "on-points", "nothing", "start-only", "end-only",
@@ -205,13 +222,18 @@ def carried_extras(pid, k):
     return 0.5 + k, tuple(10.0 * pid + c for c in CHANNELS)
 
 
-def build(desc, id0, dim, unit="ns"):
-    """-> (dataset, points, {id: (ang, bt)} for the gridded kinds else {})"""
+def build(desc, id0, dim, unit="ns", postypes=F64):
+    """-> (dataset, points, {id: (ang, bt)} for the gridded kinds else {});
+    postypes = (dtype of lat, dtype of lon), which must hold every value
+    exactly"""
     kind, spec = desc
     pts = points_of(desc, id0)
     ids = np.array([p[0] for p in pts])
-    lat = np.array([p[2] for p in pts], dtype=float)
-    lon = np.array([p[3] for p in pts], dtype=float)
+    lat = np.array([p[2] for p in pts], dtype=postypes[0])
+    lon = np.array([p[3] for p in pts], dtype=postypes[1])
+    for a, k in ((lat, 2), (lon, 3)):
+        assert np.array_equal(a.astype(float), [p[k] for p in pts],
+                              equal_nan=True), "position lost as %s" % a.dtype
     extras = {}
     if kind in GRID_KINDS:
         n, width = len(spec), GRID_KINDS[kind]
